@@ -319,4 +319,27 @@ def breadcrumbItem (link label : Bytes) : Bytes :=
   [60, 108, 105, 62, 60, 97, 32, 104, 114, 101, 102, 61, 34] ++ link ++ [34, 62] ++ html label
     ++ [60, 47, 97, 62, 60, 47, 108, 105, 62]
 
+/-! ## Row links of the index pages (templates/index.html 21-37: `url=item~"/index.html"`,
+`url=item~".html"`; macros.html 41: `<a href="{{ url }}">`) -/
+
+def isAlpha (b : Nat) : Bool := (65 ≤ b && b ≤ 90) || (97 ≤ b && b ≤ 122)
+def isSchemeChar (b : Nat) : Bool :=
+  isAlpha b || (48 ≤ b && b ≤ 57) || b == 43 || b == 45 || b == 46
+
+def schemeTail : Bytes → Bool
+  | [] => false
+  | b :: rest => if b = 58 then true else if isSchemeChar b then schemeTail rest else false
+
+/-- RFC 3986 §3.1 / WHATWG URL: after leading spaces, `ALPHA *( ALPHA / DIGIT / "+" / "-" / "." )`
+followed by `:` – a reference that a browser resolves as an absolute URL with that scheme -/
+def hasScheme (url : Bytes) : Bool :=
+  match url.dropWhile (· == 32) with
+  | [] => false
+  | b :: rest => isAlpha b && schemeTail rest
+
+/-- the link of a directory row of the top-level index (no `--abs-link-prefix`) -/
+def dirRowUrl (item : Bytes) : Bytes := item ++ [47] ++ indexHtml
+/-- the link of a file row of a directory index (no `--abs-link-prefix`) -/
+def fileRowUrl (item : Bytes) : Bytes := item ++ [46, 104, 116, 109, 108]
+
 end Grcov.Escape
